@@ -35,6 +35,7 @@ func main() {
 	out := flag.String("out", "", "directory for evidence/ and replay/ output (default: -verif)")
 	replay := flag.String("replay", "", "replay file: re-run its property and print the matching obligation")
 	debugLocks := flag.String("debug-locks", "", "print lockset call sites of the named function and exit")
+	list := flag.Bool("list", false, "print the registered properties with their meta data as JSON and exit")
 	selftest := flag.Bool("selftest", false, "run the checker on its seeded-fault fixtures")
 	flag.Parse()
 
@@ -69,6 +70,15 @@ func main() {
 		*prop, _ = r["property"].(string)
 		replayRule, _ = r["rule"].(string)
 		replayConstruct, _ = r["construct"].(string)
+	}
+	if *list {
+		out := map[string]interface{}{}
+		for id, pr := range registry {
+			out[id] = map[string]interface{}{"explanation": pr.meta.Explanation, "not_decided": pr.meta.NotDecided, "assumptions": pr.meta.Assumptions}
+		}
+		b, _ := json.MarshalIndent(out, "", " ")
+		fmt.Println(string(b))
+		os.Exit(0)
 	}
 	if *selftest {
 		os.Exit(runSelfTest(*verif))
